@@ -169,6 +169,30 @@ CLAIMED = {
         'are inputs); declared identifiers and their classes are model inputs; stub include GIRs for GLib/GObject/Gio; '
         'fields and constants use the same mapping but are not compared here; constructor return defaults are C04\'s.',
    ref='DESIGN.md §4 C02'),
+ 'C01': dict(
+   technique='Coq proof over a model of annotation application per callable (annotation pass, pass 3 heuristics, writer emission) + in-Coq correspondence through the real comment parser, transformer passes and GIR writer',
+   text='Theorems (Coq, axiom-free, for every value and every annotation set): a valid (transfer) is stored with the documented '
+        'value, floating meaning none, an invalid one is reported and changes nothing, validity being the documented rule '
+        '(C01_transfer); direction and caller-allocation are stored as written and reset the transfer default (C01_direction); '
+        'valid nullable/optional are set silently, invalid nullable/optional/allow-none are reported and every flag equals what '
+        'it would be without the annotation (C01_nullable, C01_optional, C01_allow_none_invalid); (not nullable) and (not '
+        'optional) each override their own attribute and nothing else (C01_not_overrides; refuted before fix da7007c by '
+        'C01_not_optional_refuted_before_fix); skip and free-form attributes are kept (C01_skip_and_attributes); array options '
+        'are stored and emitted as documented (C01_array, C01_array_emission); the length parameter takes the direction of its '
+        'array and transfer full when out, in every state of the callable (C01_length_follows); emitted closure/destroy/length '
+        'indices are in range and name the annotated parameter (C01_indices_in_range); scope/closure/destroy on non-callbacks are '
+        'reported and inert, on callbacks stored as written (C01_callback_annotations). The end-to-end statement for '
+        'scope/closure is FALSE of the faithful model: C01_explicit_closure_overridden_refuted, '
+        'C01_explicit_scope_overridden_refuted, C01_invalid_closure_kept_refuted are the witnesses of known findings '
+        'C01-K1..K4. Tie: generated functions and callback types (43 C types x mostly-valid and ill-fitting annotation sets) go '
+        'through GtkDocCommentBlockParser, Transformer, MainTransformer, IntrospectablePass and GIRWriter; 17 attributes of '
+        'every parameter/return value, throws and the located warning classes are compared with Model.C01 inside Coq; crisp '
+        'clauses of the property are also judged directly on the output.',
+   note='Trusted: Coq kernel+VM; stub lexer (SourceSymbol trees are inputs); declared identifiers and their classes are model '
+        'inputs; stub include GIRs. Not generated: methods/instance parameters, signals, virtual methods, nested type '
+        'strings, unknown names in length/closure/destroy (a fatal scanner error). Known findings (not repaired, printed as '
+        'KNOWN-FINDING): pass-3 callback heuristics overwrite explicit closure/scope/destroy; invalid closure kept.',
+   ref='DESIGN.md §4 C01'),
 }
 
 PLANNED = {}
